@@ -20,6 +20,8 @@ from pathlib import Path
 
 from harness.lib import LEAN, REPO
 
+PROPS = ["C12"]
+
 OUT = LEAN / "PyttbModel" / "Generated" / "Handles.lean"
 
 OBJECTIVES = ["GAUSSIAN", "BERNOULLI_ODDS", "BERNOULLI_LOGIT", "POISSON", "POISSON_LOG",
@@ -319,6 +321,18 @@ def build():
             rows[o] = (fn, gr, bound, fkw is not None)
             desc["table"][o] = {"fn": fn, "grad": gr, "param": fkw,
                                 "lower": None if bound[0] == "negInf" else str(bound[1])}
+    # every other top-level function of handles.py that reads as a handle is translated too
+    # (so that a handle the table no longer refers to can still be evaluated by the driver)
+    for name, fn in fns.items():
+        if name in exprs:
+            continue
+        try:
+            p, e = tr_function(fn, eps is not None)
+        except Lost:
+            continue
+        exprs[name] = e
+        params[name] = p
+        desc["handles"][name] = {"param": p, "unreferenced": True}
     if any(uses(e, "eps") for e in exprs.values()) and eps is None:
         lost.append("handles.EPS")
     if lost:
